@@ -193,6 +193,8 @@ pub enum Strat {
     S5(u64),
     /// lenient lookup multiplicities
     S6,
+    /// running lookup sums shifted so that their final value is zero (+ lenient lookups/quotient)
+    S7,
 }
 
 fn repl(v: F, kind: u8) -> F {
@@ -248,6 +250,11 @@ pub fn knobs_for(st: Strat) -> Knobs {
             k.lenient_lookups = true;
             k.lenient_quotient = true;
         }
+        Strat::S7 => {
+            k.lenient_lookups = true;
+            k.lenient_quotient = true;
+            k.lookup_sum_shift = true;
+        }
     }
     k
 }
@@ -259,7 +266,7 @@ pub fn run_case(s: &Subject, base: &[F], corr: &Corr, st: Strat, seed: u64) -> R
     let nw = data.common.config.num_wires;
     let degree = data.common.degree();
     // expected verdict
-    let lenient_lookups = matches!(st, Strat::S6);
+    let lenient_lookups = matches!(st, Strat::S6 | Strat::S7);
     let has_luts = !data.common.luts.is_empty();
     let committed = if has_luts { apply_lookup_padding(data, &values, lenient_lookups) } else { Ok(values.clone()) };
     let pis: Vec<F> = data.prover_only.public_inputs.iter().map(|t| values[t.index(nw, degree)]).collect();
@@ -402,6 +409,7 @@ pub fn run(ctx: &Ctx) -> i32 {
             }
             if !s.built.data.common.luts.is_empty() {
                 strats.push(Strat::S6);
+                strats.push(Strat::S7);
             }
             for st in &strats {
                 cases.push((si, bi, Corr::None, *st));
@@ -414,6 +422,7 @@ pub fn run(ctx: &Ctx) -> i32 {
                 let mut v = vec![Strat::S1, Strat::S2(0), Strat::S2(5)];
                 if !s.built.data.common.luts.is_empty() {
                     v.push(Strat::S6);
+                    v.push(Strat::S7);
                 }
                 v
             };
@@ -449,6 +458,7 @@ pub fn run(ctx: &Ctx) -> i32 {
             Strat::S4(_) => "S4-quotient-perturbed",
             Strat::S5(_) => "S5-pow-witness",
             Strat::S6 => "S6-lenient-lookups",
+            Strat::S7 => "S7-shifted-lookup-sum",
         };
         ctx.case(site, &name, || {
             let r = run_case(s, &s.bases[*bi].1, corr, *st, ctx.seed.wrapping_add(*bi as u64 + 1));
